@@ -1,7 +1,7 @@
 #!/bin/bash
 # usage: tools/bn.sh <patch.diff> [PROP ...]   -- one behaviour-preserving patch against the quick checks (scratch worktree), prints alarms
 patch=$(readlink -f "$1"); shift
-props=${@:-C01 C02 C03 C04 C05 C06 C07 C09 C10 C11 C12 C13 C14 C15 C16 C17 C18 C19 C20}
+props=${@:-C01 C02 C03 C04 C05 C06 C07 C08 C09 C10 C11 C12 C13 C14 C15 C16 C17 C18 C19 C20}
 wt=/tmp/bn.$$
 git -C /repo worktree add -q --detach $wt HEAD || exit 3
 if ! git -C $wt apply "$patch" 2>/dev/null; then echo "patch does not apply"; git -C /repo worktree remove --force $wt; exit 3; fi
